@@ -1,7 +1,7 @@
 #!/bin/bash
 # confirm_seed.sh <prop> <k>: confirm a seeded change in the scratch worktree /tmp/wt/<prop>:
 # builds, passes the suite (only the 3 known failures), demo fails with it and passes without. Writes /tmp/seed_out/<prop>/confirm<k>.txt
-P=$1; K=$2; WT=/tmp/wt/$P; OUT=/tmp/seed_out/$P; LOG=$OUT/confirm$K.txt
+P=$1; K=$2; WT=${WTROOT:-/tmp/wt}/$P; OUT=${OUTROOT:-/tmp/seed_out}/$P; LOG=$OUT/confirm$K.txt
 cd $WT || exit 2
 git checkout -q -- . ; : > $LOG
 git apply $OUT/patch$K.diff || { echo "APPLY-FAILED" >> $LOG; exit 1; }
